@@ -208,10 +208,14 @@ def run_unit(unit, tier, acc):
                     check(ver, ('call', 'count', [('call', 'distinct-values', [('seq', [s, L(1), s])])]), env, w, acc, g)
         acc.sample({'version': ver, 'expression': 'distinct-values($s)', 's': '(2, 2.0e0, 2.5, 2.50)'})
     elif g == 'index-of':
-        keys = [1, 2, Fraction(3, 2), 1.0, 'a', math.nan, '3', 3, SL.U('3'), SL.U('a')]
+        keys = [1, 2, Fraction(3, 2), 1.0, 'a', math.nan, '3', 3, SL.U('3'), SL.U('a'), True, False, 0]
         for sq in seqs:
             for k in keys:
                 check(ver, ('call', 'index-of', [s, V('k')]), {'s': sq, 'k': [k]}, w, acc, g)
+        for n in range(0, 4):
+            for t in itertools.product([1, True, 0, False, 1.0, 'a'], repeat=n):
+                for k in (True, False, 1, 0, 1.0):
+                    check(ver, ('call', 'index-of', [s, V('k')]), {'s': list(t), 'k': [k]}, w, acc, g)
     elif g == 'comma-range':
         for a in short:
             for b in short:
@@ -286,7 +290,14 @@ def run_unit(unit, tier, acc):
                     check(ver, ('filter', V('o'), (q, [('x', rng)], ('gcmp', '=', ('ctx',), V('x')))), env, w, acc, g)
                     check(ver, ('filter', V('o'), (q, [('x', rng), ('y', rng)], ('gcmp', '=', ('ctx',), ('arith', '+', V('x'), V('y'))))), env, w, acc, g)
                 check(ver, ('filter', V('o'), ('gcmp', '=', ('for', [('x', rng)], ('ctx',)), V('a'))), env, w, acc, g)
+                # an operand that is abandoned after its first item (head, exists, empty, a positional filter) leaves the focus as it was
+                check(ver, ('filter', V('o'), ('seq', [('call', 'exists', [rng]), ('gcmp', '=', ('ctx',), L(1))])), env, w, acc, g)
+                check(ver, ('filter', V('o'), ('gcmp', '=', ('seq', [('call', 'empty', [rng]), ('ctx',)]), L(1))), env, w, acc, g)
+                check(ver, ('filter', V('o'), ('gcmp', '=', ('seq', [('filter', rng, L(1)), ('ctx',)]), L(2))), env, w, acc, g)
                 if ver != '2.0':
+                    check(ver, ('map', V('o'), ('seq', [('call', 'head', [rng]), ('ctx',)])), env, w, acc, g)
+                    check(ver, ('map', V('o'), ('seq', [('call', 'exists', [rng]), ('ctx',), ('call', 'empty', [rng]), ('ctx',)])), env, w, acc, g)
+                    check(ver, ('map', V('o'), ('arith', '+', ('call', 'count', [('call', 'head', [rng])]), ('ctx',))), env, w, acc, g)
                     check(ver, ('map', V('o'), ('for', [('x', rng)], ('seq', [('ctx',), V('x')]))), env, w, acc, g)
                     check(ver, ('map', V('o'), ('some', [('x', rng)], ('gcmp', '=', ('ctx',), V('x')))), env, w, acc, g)
                     check(ver, ('map', V('o'), ('every', [('x', rng)], ('gcmp', '<=', ('ctx',), V('x')))), env, w, acc, g)
@@ -383,7 +394,7 @@ def run_unit(unit, tier, acc):
                 if ver != '2.0':
                     check(ver, ('call', 'string-join', [s]), {'s': list(t)}, w, acc, g)
     elif g == 'numeric-seqs':
-        nums = [0, 1, -2, 3, Fraction(1, 2), Fraction(-5, 2), 1.5, -0.5, math.nan, math.inf, SL.U('4'), SL.U(' 2 ')]
+        nums = [0, 1, -2, 3, Fraction(1, 2), Fraction(-5, 2), 1.5, -0.5, math.nan, math.inf, SL.U('4'), SL.U(' 2 '), SL.U('NaN'), SL.U('-INF')]
         for n in range(0, ml + 1):
             for t in itertools.product(nums, repeat=n):
                 if n == ml and tier == 'quick' and len(set(map(repr, t))) < n:
